@@ -56,6 +56,8 @@ class AccfgMachine(Interp):
         self.token_n = 0
         self.last_token: dict[str, object] = {}
         self.known_accs: set[str] = set()
+        self.loops_done = 0  # loops that completed >=1 iteration so far
+        self.loop_depth = 0
         self.hooks = []  # objects with optional on_state_defined(machine, value), on_setup(...), on_launch(...)
         hd = self.handlers
         hd["accfg.setup"] = self._h_setup
@@ -66,6 +68,14 @@ class AccfgMachine(Interp):
         hd["llvm.call"] = self._h_llvm_call
         hd["memref.extract_aligned_pointer_as_index"] = self._h_opaque_pure
         hd["memref.dim"] = self._h_opaque_pure
+
+    def on_loop_enter(self, op):
+        self.loop_depth += 1
+
+    def on_loop_exit(self, op, trips=None):
+        self.loop_depth -= 1
+        if trips is None or trips > 0:
+            self.loops_done += 1
 
     # -- poison ---------------------------------------------------------------------------
     def fresh_poison(self, why):
@@ -113,7 +123,9 @@ class AccfgMachine(Interp):
                 f(self, op, acc, tok)
         vals = tuple(self.get(v) for v in op.values)
         names = tuple(n.data for n in op.param_names.data)
-        self.events.append(("L", acc, tuple(zip(names, vals)), dict(self.regs.setdefault(acc, {}))))
+        self.events.append(
+            ("L", acc, tuple(zip(names, vals)), dict(self.regs.setdefault(acc, {})), {"loops_done": self.loops_done, "depth": self.loop_depth})
+        )
         self.set_results(op, [("launchtok", acc, len(self.events))])
 
     def _h_await(self, op):
@@ -175,8 +187,19 @@ class AccfgMachine(Interp):
                             f(self, a)
 
 
+class Mismatch(str):
+    """Description of a trace mismatch (a str) with structured details in .info"""
+
+    info: dict
+
+    def __new__(cls, desc, **info):
+        o = super().__new__(cls, desc)
+        o.info = info
+        return o
+
+
 def compare_launch_traces(ev1, ev2):
-    """C01/C06 oracle.  Returns None if equal w.r.t. the property, else a description.
+    """C01/C06 oracle.  Returns None if equal w.r.t. the property, else a Mismatch (str with .info).
 
     (1) L/A/X/T event sequences equal in kind, accelerator, order, launch values (and opaque-call args);
     (2) at the k-th launch, every field that is non-poison in ev1's snapshot holds the same value in ev2's.
@@ -186,22 +209,30 @@ def compare_launch_traces(ev1, ev2):
     n_launch = 0
     for k, (x, y) in enumerate(zip(a, b)):
         if x[0] != y[0]:
-            return f"event {k}: kind {x[0]} vs {y[0]} ({x[:2]} vs {y[:2]})"
+            return Mismatch(f"event {k}: kind {x[0]} vs {y[0]} ({x[:2]} vs {y[:2]})", what="sequence")
         if x[0] == "L":
             n_launch += 1
             if x[1] != y[1]:
-                return f"event {k}: launch of {x[1]} vs {y[1]}"
+                return Mismatch(f"event {k}: launch of {x[1]} vs {y[1]}", what="sequence")
             if x[2] != y[2]:
-                return f"event {k}: launch values {x[2]} vs {y[2]}"
+                return Mismatch(f"event {k}: launch values {x[2]} vs {y[2]}", what="launch-values")
             s1, s2 = x[3], y[3]
             for f, v in s1.items():
                 if isinstance(v, Poison):
                     continue
                 v2 = s2.get(f, "<absent>")
                 if v2 != v:
-                    return f"launch #{n_launch} of {x[1]} (event {k}): field {f} expected {v} observed {v2}"
+                    return Mismatch(
+                        f"launch #{n_launch} of {x[1]} (event {k}): field {f} expected {v} observed {v2}",
+                        what="register",
+                        field=f,
+                        expected=v,
+                        observed=v2,
+                        observed_poison=isinstance(v2, Poison) or v2 == "<absent>",
+                        meta_after=y[4] if len(y) > 4 else {},
+                    )
         elif x != y:
-            return f"event {k}: {x} vs {y}"
+            return Mismatch(f"event {k}: {x} vs {y}", what="sequence")
     if len(a) != len(b):
-        return f"event count {len(a)} vs {len(b)} (first extra: {(a + b)[min(len(a), len(b))][:2]})"
+        return Mismatch(f"event count {len(a)} vs {len(b)} (first extra: {(a + b)[min(len(a), len(b))][:2]})", what="sequence")
     return None
